@@ -191,6 +191,20 @@ contract("verif.harness.ecc.schnorr_verify_bytes", props=("C02",), nl_uf=True,
                   "implies(raises(), not spec.schnorr.verify(spec.curve.x_of(pub).to_bytes(32, 'big'), msg, sig))"],
          gen=_gen_schnorr_verify)
 
+# history contract (added after seeded change C02-D: verify_schnorr negating an odd-Y key in place and restoring it only on
+# some exits): rejected signatures must leave the key object as it was -- the honest signature verifies before and after
+def _gen_schnorr_history(rng, tier):
+    for t in range(12 if tier == "quick" else 60):
+        d = _DS[t % len(_DS)] if t < 4 else rng.randrange(1, N)
+        yield {"d": d, "msg": rand_bytes(rng, 32), "aux": rand_bytes(rng, 32),
+               "flips": [256 + rng.randrange(256) for _ in range(4)] + [rng.randrange(256) for _ in range(2)]}
+
+
+contract("verif.harness.ecc.schnorr_verify_history", props=("C02",), tiers=("runtime-only",),
+         params={"d": ("int", 1, N - 1), "msg": B32, "aux": B32, "flips": "list"},
+         ensures=["returns()", "result[0] is True", "not any(result[1])", "result[2] is True", "result[3] is True"],
+         gen=_gen_schnorr_history)
+
 contract("verif.harness.ecc.schnorr_sig_init", props=("C02",), nl_uf=True,
          params={"r_point": point, "s": "int"},
          raises={"ValueError": "s >= spec.schnorr.N"},
